@@ -294,8 +294,8 @@ fn rate_job(op: Op1, form: Form, len: usize, devs: u32) -> Job {
 
 pub fn plan(tier: Tier) -> Plan {
   let (len0, len, devs) = match tier {
-    Tier::Quick => (10, 8, 1),
-    Tier::Thorough => (13, 10, 2),
+    Tier::Quick => (12, 10, 2),
+    Tier::Thorough => (15, 12, 3),
   };
   let mut ops = vec![];
   for w in [1u64, 2] {
